@@ -164,7 +164,7 @@ impl Interp {
                 // (the ports are picked free and bound a moment later: another socket of this busy process may take one in
                 // between — that is a property of the harness, not of the code under test; try again with new ports)
                 for attempt in 0..4 {
-                    match crate::e2e::World::start(proto, cipher, spw, cpw, &crate::stream::parse_users(users), mode, kv(t, "cmode"), kv(t, "ws") == Some("1"), kv(t, "link") == Some("1"), threads, kv(t, "tls")) {
+                    match crate::e2e::World::start(proto, cipher, spw, cpw, &crate::stream::parse_users(users), mode, kv(t, "cmode"), kv(t, "ws") == Some("1"), matches!(kv(t, "link"), Some("1") | Some("chop")), kv(t, "link") == Some("chop"), threads, kv(t, "tls")) {
                         Ok(w) => {
                             self.objs.insert(name.to_string(), Obj::World(w));
                             return "ok".into();
@@ -205,6 +205,14 @@ impl Interp {
                 let Some(Obj::World(w)) = self.objs.get(*name) else { return "bad-op".into() };
                 let (Some(a), Some(k), Some(per), Some(seed)) = (kv(t, "apps").and_then(|x| x.parse().ok()), kv(t, "targets").and_then(|x| x.parse().ok()), kv(t, "per").and_then(|x| x.parse().ok()), kv(t, "seed").and_then(|x| x.parse().ok())) else { return "bad-op".into() };
                 w.udp_multi(a, k, per, seed)
+            }
+            ["e2e.udpowner", name] => {
+                let Some(Obj::World(w)) = self.objs.get(*name) else { return "bad-op".into() };
+                w.udp_owner()
+            }
+            ["e2e.udpreplay", name] => {
+                let Some(Obj::World(w)) = self.objs.get(*name) else { return "bad-op".into() };
+                w.udp_replay_live()
             }
             ["e2e.ssid", name, ..] => {
                 let Some(Obj::World(w)) = self.objs.get(*name) else { return "bad-op".into() };
